@@ -85,6 +85,28 @@ def pwc_values(self, result):
             and result[1][(len(self.x) - 1) * self.n] == self.y[len(self.x) - 1])
 
 
+# ------------------------------------------------------------------ FunctionRFA / CubicSplineRFA
+
+GSF = FUN + '._get_sampling_function'
+
+# The sampling function is user code (or SciPy's CubicSpline for the cubic strategy): its contract is ASSUMED - a total function
+# returning a finite real for every abscissa.  What is verified is what FunctionRFA.rfa does with it.
+contract(GSF, params=dict(self=Obj(FUN)), returns=Fn(1), assumed_contract=True, no_rt=True)
+
+contract(FUN + '.rfa', params=dict(self=Obj(FUN)), returns=Tuple(Seq(Real), Seq(Real)))
+
+
+@requires(FUN + '.rfa')
+def fun_pre(self):
+    return series_in(self)
+
+
+@ensures(FUN + '.rfa')
+def fun_grid(self, result):
+    """C04 for user-supplied sampling functions and the cubic spline: same grid, two ndarrays"""
+    return grid_ok(self.x, self.n, result)
+
+
 # -------------------------------------------------------------------- constructors of the window strategies
 
 def window_fields_fixed(w):
@@ -184,7 +206,8 @@ def grid_y(self, ya):
             and forall(range(self.n + 1), lambda j: ya[len(self.x) * self.n + j] == self.y[len(self.x) - 1]))
 
 
-contract(LINF + '.rfa', params=dict(self=Obj(LINF)), returns=Tuple(Seq(Real), Seq(Real)))
+contract(LINF + '.rfa', params=dict(self=Obj(LINF)), returns=Tuple(Seq(Real), Seq(Real)),
+         defer_call_pre=('lin_fit', 'exp_lin_fit', 'lin_exp_xy_fit'), defer_note='bounded monitoring of the strategy at run time covers it (finite values on every generated input)')
 
 
 @requires(LINF + '.rfa')
@@ -223,14 +246,24 @@ def linf_h_xs(self, osx, result):
     return len(result[0]) == len(osx) and forall(range(len(osx)), lambda i: result[0][i] == osx[i])
 
 
-@ensures(LINF + '.rfa', uses=['linf_h_xs'])
+@hint(LINF + '.rfa', scoped=True, uses=['linf_h_xs'])
+def linf_h_xs_grid(self, osx, result):
+    """instances of the oversampling contract at the flat index of (k, j), carried over to the returned abscissae"""
+    return (forall(range(len(self.x) - 1), lambda k: forall(range(self.n), lambda j:
+                   osx[k * self.n + j] == self.x[k] + j * (self.x[k + 1] - self.x[k]) / self.n
+                   and result[0][k * self.n + j] == osx[k * self.n + j]))
+            and forall(range(len(self.x)), lambda k: osx[k * self.n] == self.x[k] and result[0][k * self.n] == osx[k * self.n]))
+
+
+@ensures(LINF + '.rfa', uses=['linf_h_xs_grid'])
 def linf_grid(self, result):
     return grid_ok(self.x, self.n, result)
 
 
 # =============================================================================== ExpFixedRFA.rfa (C04 structure)
 
-contract(EXPF + '.rfa', params=dict(self=Obj(EXPF)), returns=Tuple(Seq(Real), Seq(Real)))
+contract(EXPF + '.rfa', params=dict(self=Obj(EXPF)), returns=Tuple(Seq(Real), Seq(Real)),
+         defer_call_pre=('lin_fit', 'exp_lin_fit', 'lin_exp_xy_fit'), defer_note='bounded monitoring of the strategy at run time covers it (finite values on every generated input)')
 
 
 @requires(EXPF + '.rfa')
@@ -278,7 +311,16 @@ def expf_h_xs(self, osx, result):
     return len(result[0]) == len(osx) and forall(range(len(osx)), lambda i: result[0][i] == osx[i])
 
 
-@ensures(EXPF + '.rfa', uses=['expf_h_xs'])
+@hint(EXPF + '.rfa', scoped=True, uses=['expf_h_xs'])
+def expf_h_xs_grid(self, osx, result):
+    """instances of the oversampling contract at the flat index of (k, j), carried over to the returned abscissae"""
+    return (forall(range(len(self.x) - 1), lambda k: forall(range(self.n), lambda j:
+                   osx[k * self.n + j] == self.x[k] + j * (self.x[k + 1] - self.x[k]) / self.n
+                   and result[0][k * self.n + j] == osx[k * self.n + j]))
+            and forall(range(len(self.x)), lambda k: osx[k * self.n] == self.x[k] and result[0][k * self.n] == osx[k * self.n]))
+
+
+@ensures(EXPF + '.rfa', uses=['expf_h_xs_grid'])
 def expf_grid(self, result):
     return grid_ok(self.x, self.n, result)
 
@@ -294,8 +336,7 @@ contract(GATP, params=dict(x=Obj(IA), y=Obj(IA), a=Int, adaptive_smooth=Real),
 
 @requires(GATP)
 def gatp_pre(x, y, a, adaptive_smooth):
-    return (a >= 2 and adaptive_smooth > 0 and x.n >= 2 and y.n == x.n and len(y.a) == len(x.a) and len(x.a) >= 3 * x.n + 1
-            and len(x.a) % x.n == 1)
+    return (a >= 2 and adaptive_smooth > 0 and x.n >= 2 and y.n == x.n and len(y.a) == len(x.a) and len(x.a) >= 3 * x.n + 1)
 
 
 def windows_ok(ws, count, a):
@@ -311,4 +352,141 @@ def gatp_inv(x, y, a, a_ls, a_rs, k):
 
 @ensures(GATP)
 def gatp_post(x, y, a, adaptive_smooth, result):
-    return (windows_ok(result[0], len(x.a) // x.n + 0, a) and windows_ok(result[1], len(x.a) // x.n + 0, a))
+    return (windows_ok(result[0], len(x.a) // x.n, a) and windows_ok(result[1], len(x.a) // x.n, a))
+
+
+# =============================================================================== LinearAdaptiveRFA.rfa (C04 structure)
+
+FITS = ('lin_fit', 'exp_lin_fit', 'lin_exp_xy_fit')
+DEFER_NOTE = 'bounded monitoring of the strategy at run time covers it (finite values on every generated input)'
+
+contract(LINA + '.rfa', params=dict(self=Obj(LINA)), returns=Tuple(Seq(Real), Seq(Real)), defer_call_pre=FITS, defer_note=DEFER_NOTE)
+
+
+@requires(LINA + '.rfa')
+def lina_pre(self):
+    return series_in(self) and self.a >= 2 and self.a <= self.n and self.adaptive_smooth > 0
+
+
+@hint(LINA + '.rfa', before='a_ls, a_rs, gammas = self.get_adaptive_transition_points')
+def lina_h_lens(self, x, y, z, n):
+    return (n == self.n and x.n == n and y.n == n and z.n == n and len(x.a) == ext_len(self) and len(y.a) == ext_len(self)
+            and len(z.a) == ext_len(self) and is_ndarray(z.a) and is_ndarray(x.a))
+
+
+@hint(LINA + '.rfa', before='for k in range(1, x.nr_of_full_intervals() - 1)')
+def lina_h_windows(self, x, a_ls, a_rs):
+    """one window per interval of the extended grid: (m + 1) intervals"""
+    return (ext_len(self) // self.n == len(self.x) + 1 and windows_ok(a_ls, len(self.x) + 1, self.a)
+            and windows_ok(a_rs, len(self.x) + 1, self.a))
+
+
+def adaptive_loop_inv(self, z, n, k):
+    return len(z.a) == ext_len(self) and z.n == n and is_ndarray(z.a) and 1 <= k and k <= len(self.x) - 1
+
+
+@invariant(LINA + '.rfa', loop=1)
+def lina_inv1(self, z, n, k):
+    return len(z.a) == ext_len(self) and z.n == n and is_ndarray(z.a) and 1 <= k
+
+
+@invariant(LINA + '.rfa', loop=2)
+def lina_inv2(self, z, n, k):
+    return adaptive_loop_inv(self, z, n, k)
+
+
+@invariant(LINA + '.rfa', loop=3)
+def lina_inv3(self, z, n, k):
+    return adaptive_loop_inv(self, z, n, k)
+
+
+ghost(LINA + '.rfa', before='x.extend_linspace(direction=', name='osx', expr='x.a')
+
+
+@hint(LINA + '.rfa', scoped=True)
+def lina_h_xs(self, osx, result):
+    return len(result[0]) == len(osx) and forall(range(len(osx)), lambda i: result[0][i] == osx[i])
+
+
+@hint(LINA + '.rfa', scoped=True, uses=['lina_h_xs'])
+def lina_h_xs_grid(self, osx, result):
+    return (forall(range(len(self.x) - 1), lambda k: forall(range(self.n), lambda j:
+                   osx[k * self.n + j] == self.x[k] + j * (self.x[k + 1] - self.x[k]) / self.n
+                   and result[0][k * self.n + j] == osx[k * self.n + j]))
+            and forall(range(len(self.x)), lambda k: osx[k * self.n] == self.x[k] and result[0][k * self.n] == osx[k * self.n]))
+
+
+@ensures(LINA + '.rfa', uses=['lina_h_xs_grid'])
+def lina_grid(self, result):
+    return grid_ok(self.x, self.n, result)
+
+
+# =============================================================================== ExpAdaptiveRFA.rfa (C04 structure)
+
+contract(EXPA + '.rfa', params=dict(self=Obj(EXPA)), returns=Tuple(Seq(Real), Seq(Real)), defer_call_pre=FITS, defer_note=DEFER_NOTE)
+
+
+@requires(EXPA + '.rfa')
+def expa_pre(self):
+    return (series_in(self) and self.a >= 2 and self.a <= self.n and self.adaptive_smooth > 0 and 0 <= self.beta and self.beta <= 1
+            and self.exp > 0)
+
+
+@hint(EXPA + '.rfa', before='a_ls, a_rs, gammas = LinearAdaptiveRFA.get_adaptive_transition_points')
+def expa_h_lens(self, x, y, z, n):
+    return (n == self.n and x.n == n and y.n == n and z.n == n and len(x.a) == ext_len(self) and len(y.a) == ext_len(self)
+            and len(z.a) == ext_len(self) and is_ndarray(z.a) and is_ndarray(x.a))
+
+
+@hint(EXPA + '.rfa', before='for k in range(1, x.nr_of_full_intervals() - 1)')
+def expa_h_windows(self, x, a_ls, a_rs, b_ls, b_rs):
+    """one window per interval of the extended grid; the linear share of each window is a part of it"""
+    return (ext_len(self) // self.n == len(self.x) + 1 and windows_ok(a_ls, len(self.x) + 1, self.a)
+            and windows_ok(a_rs, len(self.x) + 1, self.a) and len(b_ls) == len(self.x) + 1 and len(b_rs) == len(self.x) + 1
+            and forall(range(len(self.x) + 1), lambda k: 0 <= b_ls[k] and b_ls[k] <= a_ls[k] and 0 <= b_rs[k] and b_rs[k] <= a_rs[k]))
+
+
+@invariant(EXPA + '.rfa', loop=1)
+def expa_inv1(self, z, n, k):
+    return len(z.a) == ext_len(self) and z.n == n and is_ndarray(z.a) and 1 <= k
+
+
+@invariant(EXPA + '.rfa', loop=2)
+def expa_inv2(self, z, n, k):
+    return adaptive_loop_inv(self, z, n, k)
+
+
+@invariant(EXPA + '.rfa', loop=3)
+def expa_inv3(self, z, n, k):
+    return adaptive_loop_inv(self, z, n, k)
+
+
+@invariant(EXPA + '.rfa', loop=4)
+def expa_inv4(self, z, n, k):
+    return adaptive_loop_inv(self, z, n, k)
+
+
+@invariant(EXPA + '.rfa', loop=5)
+def expa_inv5(self, z, n, k):
+    return adaptive_loop_inv(self, z, n, k)
+
+
+ghost(EXPA + '.rfa', before='x.extend_linspace(direction=', name='osx', expr='x.a')
+
+
+@hint(EXPA + '.rfa', scoped=True)
+def expa_h_xs(self, osx, result):
+    return len(result[0]) == len(osx) and forall(range(len(osx)), lambda i: result[0][i] == osx[i])
+
+
+@hint(EXPA + '.rfa', scoped=True, uses=['expa_h_xs'])
+def expa_h_xs_grid(self, osx, result):
+    return (forall(range(len(self.x) - 1), lambda k: forall(range(self.n), lambda j:
+                   osx[k * self.n + j] == self.x[k] + j * (self.x[k + 1] - self.x[k]) / self.n
+                   and result[0][k * self.n + j] == osx[k * self.n + j]))
+            and forall(range(len(self.x)), lambda k: osx[k * self.n] == self.x[k] and result[0][k * self.n] == osx[k * self.n]))
+
+
+@ensures(EXPA + '.rfa', uses=['expa_h_xs_grid'])
+def expa_grid(self, result):
+    return grid_ok(self.x, self.n, result)
